@@ -146,3 +146,47 @@ func c14json(env *Env, out *sync.Mutex, rng *Rng) {
 	}
 	out.Unlock()
 }
+
+// c14burst: the application registers new templates densely (one every ~50 us) in a window around
+// the first refresh tick, so that the refresh goroutine walks the template map while it is being
+// extended. Nothing is compared: the scenario exists for the race detector (bin/c14_race) and for
+// the runtime's own concurrent-map check. case "C14 burst", obs "B ok".
+func c14burst(env *Env, out *sync.Mutex) {
+	conn, err := net.ListenUDP("udp", &net.UDPAddr{IP: net.IPv4(127, 0, 0, 1)})
+	if err != nil {
+		panic(err)
+	}
+	defer conn.Close()
+	conn.SetReadBuffer(8 << 20)
+	go func() {
+		buf := make([]byte, 65536)
+		for {
+			if _, _, err := conn.ReadFromUDP(buf); err != nil {
+				return
+			}
+		}
+	}()
+	t0 := time.Now()
+	ep, err := exporter.InitExportingProcess(exporter.ExporterInput{
+		CollectorAddress: conn.LocalAddr().String(), CollectorProtocol: "udp", ObservationDomainID: 1, TempRefTimeout: 1})
+	if err != nil {
+		panic(err)
+	}
+	a := &c14app{ep: ep}
+	for i := 0; i < 50; i++ {
+		a.sendTemplate()
+	}
+	time.Sleep(time.Until(t0.Add(880 * time.Millisecond)))
+	n := 0
+	for time.Since(t0) < 1200*time.Millisecond && n < 4000 {
+		a.sendTemplate()
+		n++
+		time.Sleep(50 * time.Microsecond)
+	}
+	time.Sleep(time.Until(t0.Add(1350 * time.Millisecond)))
+	ep.CloseConnToCollector()
+	out.Lock()
+	env.Emit("C14 burst", "B ok")
+	env.Count("udp burst of template registrations across a refresh tick")
+	out.Unlock()
+}
